@@ -113,6 +113,38 @@ func runChain(desc *chainDesc) {
 		if c.Inject != nil {
 			rep.Count("cases_scripted_with_injected_opt", 1)
 		}
+		// coverage grid for ecs_handler: configuration x client ECS class x upstream ECS class
+		for _, e := range desc.Pre {
+			if e.Kind != "ecs_handler" || info.path == "no-upstream" {
+				continue
+			}
+			cl := "no-opt"
+			if c.Opt != nil {
+				cl = "opt-without-ecs"
+				for _, x := range c.Opt.Options {
+					if x.Code == 8 && len(x.Data) >= 2 {
+						cl = fmt.Sprintf("ecs-family%d", x.Data[1])
+					}
+				}
+			}
+			up := "no-ecs"
+			if len(c.Up.Opts) > 0 {
+				if codeSet(c.Up.Opts[len(c.Up.Opts)-1].Options)[8] {
+					up = "different-ecs"
+				}
+				if c.Up.EchoECS {
+					up = "echo+" + up
+				}
+			}
+			pre := "none"
+			if e.Preset != "" {
+				pre = "v6"
+				if a, err := netip.ParseAddr(e.Preset); err == nil && a.Unmap().Is4() {
+					pre = "v4"
+				}
+			}
+			rep.SetAdd("ecs_handler_grid", fmt.Sprintf("fwd=%v,send=%v,preset=%s|client=%s|upstream=%s", e.Forward, e.Send, pre, cl, up))
+		}
 		if reply != nil && (c.Opt != nil || len(c.Up.Opts) > 0) {
 			upc := "-"
 			if len(c.Up.Opts) > 0 {
@@ -228,6 +260,11 @@ func main() {
 		"handler_made_replies_judged:rcode2", "handler_made_replies_judged:rcode5",
 		"branch_exchanges:main", "branch_exchanges:primary", "branch_exchanges:secondary", "branch_exchanges_in_lazy_refresh",
 		"lazy_hits_with_refresh_awaited", "branch_reply_options_attributed_to_relayed_exchange"}
+	// 12 ecs_handler configurations x 4 client classes x 4 upstream classes = 192 cells
+	rep.Count("ecs_handler_grid_cells_seen", int64(rep.SetLen("ecs_handler_grid")))
+	if rep.SetLen("ecs_handler_grid") < 150 {
+		rep.Inconclusive("only %d of 192 ecs_handler configuration x client x upstream cells were exercised", rep.SetLen("ecs_handler_grid"))
+	}
 	for _, k := range need {
 		if rep.Get(k) == 0 {
 			rep.Inconclusive("monitor counter %s stayed 0: that part of the property was not exercised", k)
